@@ -134,7 +134,7 @@ def _key(a: Any) -> Any:
 
 def _skel(a: Any) -> Any:
     if isinstance(a, LC):
-        return ("lc",) + tuple(t.skel for _, t in a)
+        return ("lc",) + tuple(sorted((t.skel for _, t in a), key=repr))  # a sum: order-insensitive
     if isinstance(a, (SReal, SInt)):
         return ("sym",)
     if isinstance(a, (tuple, list)):
